@@ -67,9 +67,22 @@ Example C10_nonvacuous :
   255 < max_fanout (TNode 1 (repeat (TNew (TNode 2 [])) 300)).
 Proof. vm_compute. repeat split; reflexivity. Qed.
 
+(* A transaction with an operation that is invalid for its column (a plain write to the tree column, a node with
+   more than 255 children, a dereference on an append-only column, a reference on a column without counting) is
+   rejected with nothing claimed and nothing registered: the state is literally unchanged (repair F7). *)
+Theorem C10_invalid_operation_rejects_without_trace :
+  forall cf s ops, (static_code cf ops <> 0 \/ static_ref_code cf ops <> 0) ->
+  fst (mcommit_tx cf s ops) = s /\ snd (mcommit_tx cf s ops) <> 0.
+Proof.
+  intros cf s ops H. unfold mcommit_tx. destruct (N.eqb_spec (static_code cf ops) 0) as [E|E]; cbn [negb].
+  - destruct H as [H|H]; [contradiction|]. destruct (N.eqb_spec (static_ref_code cf ops) 0) as [E2|E2]; [contradiction|]. cbn [negb fst snd]. split; [reflexivity|exact E2].
+  - cbn [fst snd]. split; [reflexivity|exact E].
+Qed.
+
 Print Assumptions C10_node_pack_roundtrip.
 Print Assumptions C10_unrepresentable_rejected.
 Print Assumptions C10_insert_reads_back_after_commit.
 Print Assumptions C10_insert_reads_back_after_processing.
 Print Assumptions C10_shared_node_survives_dereference.
 Print Assumptions C10_unshared_leaf_is_reclaimed.
+Print Assumptions C10_invalid_operation_rejects_without_trace.
